@@ -125,7 +125,7 @@ impl Cell {
         })
     }
     pub fn from_json(v: &Value) -> Cell {
-        let front = |s: &str| if s == "plain" { Front::Plain } else { Front::Sharded(NSHARDS) };
+        let front = |s: &str| if s == "plain" { Front::Plain } else { Front::Sharded(s.trim_start_matches("sharded").parse().unwrap_or(NSHARDS)) };
         Cell {
             writer: v["writer"].as_str().map(front),
             readers: v["readers"].as_array().unwrap().iter().map(|x| front(x.as_str().unwrap())).collect(),
@@ -210,8 +210,11 @@ fn level_rel(front: Front, content: Content) -> Option<String> {
     }
     Some(match front {
         Front::Plain => "key".to_string(),
-        Front::Sharded(_) => {
-            let shard = if content >= 3 { 2 } else { 1 };
+        Front::Sharded(n) => {
+            // the key's primary / secondary shard under this level's shard count (0 and 1 mean 2)
+            let k = the_key();
+            let (a, b) = ops::expected_shards(k.h1, k.h2, n);
+            let shard = if content >= 3 { b } else { a };
             format!("{}/key", ops::shard_dir_name(shard))
         }
     })
@@ -536,6 +539,12 @@ pub fn shapes() -> Vec<(Option<Front>, Vec<Front>)> {
     let mut v = Vec::new();
     for w in [None, Some(p), Some(s)] {
         for r in [vec![], vec![p], vec![s], vec![p, p], vec![p, s], vec![s, p], vec![s, s]] {
+            v.push((w, r));
+        }
+    }
+    // explicitly sharded read-only levels with a degenerate shard count (0 and 1 mean 2 shards, as for writers)
+    for w in [None, Some(p)] {
+        for r in [vec![Front::Sharded(1)], vec![p, Front::Sharded(1)], vec![Front::Sharded(0), p], vec![Front::Sharded(1), Front::Sharded(0)]] {
             v.push((w, r));
         }
     }
